@@ -51,7 +51,7 @@ def errName : Err → String
   | .badDictPath => "BadBackupDictionaryPath" | .badRootPath => "BadBackupRootPath"
   | .isADirectory => "IsADirectoryError" | .jsonDecode => "JSONDecodeError"
   | .missingBackupFile => "MissingBackupFile" | .extraFiles => "ExtraFilesInBackup"
-  | .noBackup => "NoBackup" | .backupDoesNotExist => "BackupDoesNotExist" | .badDataFile => "BadDataFile"
+  | .noBackup => "NoBackup" | .backupDoesNotExist => "BackupDoesNotExist" | .backupExists => "BackupExists" | .badDataFile => "BadDataFile"
   | .fileNotFound => "FileNotFoundError"
 
 def scanJson (r : Except Err Listing) : Json :=
@@ -162,6 +162,64 @@ def handle (op : String) (j : Json) : Option (Except String Json) :=
                       ("whole", match whole with
                         | .error e => jobj [("err", Json.str (errName e))]
                         | .ok s' => jobj [("files", filesJson s' c.dataRoot)])]
+  /- a session on the level of whole backups: creations (API / CLI, any selection incl. empty), re-opened
+     managers, restores, data modifications; after each operation: returned value / error, all files -/
+  | "c18.bhist" => some do
+      let c ← getCfg j
+      let s0 ← getTree j
+      let ops ← getArr j "ops"
+      let m0 := match scan s0 c.backups with | .ok l => l | .error _ => []
+      let rec goB (m : Listing) (s : St) : List Json → List Json → Except String (List Json)
+        | [], acc => pure acc.reverse
+        | o :: r, acc => do
+          let k ← getString o "op"
+          let fresh := getBoolD o "fresh" false
+          let cli := getBoolD o "cli" false
+          -- a fresh manager (always for the CLI): constructing it may fail
+          let opened : Except Err Listing := if fresh || cli then scan s c.backups else .ok m
+          let out (m' : Listing) (s' : St) (ret : Json) (err : Json) : Json :=
+            jobj [("ret", ret), ("err", err), ("files", filesJson s' c.dataRoot), ("scan", scanJson (scan s' c.backups)),
+                  ("dict", jarr (m'.map (fun e => jarr [jstr e.1, jarr (e.2.map jstr)])))]
+          match k with
+          | "reopen" => match scan s c.backups with
+            | .ok l => goB l s r (out l s Json.null Json.null :: acc)
+            | .error e => goB m s r (out m s Json.null (Json.str (errName e)) :: acc)
+          | "modify" => do
+              let s' := set s (← asPath (← getVal o "path")) (.reg (← asBytes (← getVal o "bytes")))
+              goB m s' r (out m s' Json.null Json.null :: acc)
+          | "delete" => do
+              let s' := delTree s (← asPath (← getVal o "path"))
+              goB m s' r (out m s' Json.null Json.null :: acc)
+          | "create" => do
+              let n ← getStr o "name"
+              let files ← getFiles o
+              let c' := { c with name := n }
+              match opened with
+              | .error e => goB m s r (out m s Json.null (Json.str (errName e)) :: acc)
+              | .ok mm =>
+                let res : Except Err (Bool × List (Step Sym)) := if cli then createCli c' mm s files else .ok (create c' mm s files)
+                match res with
+                | .error e => goB mm s r (out mm s Json.null (Json.str (errName e)) :: acc)
+                | .ok (ret, steps) =>
+                  let s' := exec steps s
+                  let mm' := if ret then mm ++ [(n, (files.map joinKey).eraseDups)] else mm
+                  -- after a creation by another manager the session re-opens its own (no stale managers)
+                  goB mm' s' r (out mm' s' (jbool ret) Json.null :: acc)
+          | "restore" => do
+              let n ← getStr o "name"
+              let tasks ← (← getArr o "tasks").mapM asStr
+              let c' := { c with name := n }
+              match opened with
+              | .error e => goB m s r (out m s Json.null (Json.str (errName e)) :: acc)
+              | .ok mm =>
+                let fs := ((lookup mm n).getD []).map splitKey
+                let res := if cli then restoreCli c' fs tasks s else restore c' fs tasks s
+                match res with
+                | .error e => goB m s r (out mm s Json.null (Json.str (errName e)) :: acc)
+                | .ok s' => goB m s' r (out mm s' Json.null Json.null :: acc)
+          | _ => throw s!"unknown bhist op {k}"
+      let tr ← goB m0 s0 ops []
+      pure <| jobj [("pre", scanJson (scan s0 c.backups)), ("trace", jarr tr)]
   /- key mapping and task filter in isolation -/
   | "c18.key" => some do
       let p ← asPath (← getVal j "path")
